@@ -81,7 +81,8 @@ Lemma gen_wg_process_queue : forall cf s, p_pc s = PLoop ->
   step cf s LPEmpty = match queue s with [] => Some (s_ppc s (if p_final s then PExit else PSel)) | _ => None end /\
   step cf s LPPop = match queue s with j :: t => Some (s_ppc (s_queue s t) (PDo j)) | [] => None end.
 Proof.
-  intros cf s Hp. unfold step. rewrite Hp. destruct (queue s); repeat split.
+  intros cf s Hp. unfold step, g_wg_process_queue_body. rewrite Hp.
+  destruct (queue s) as [|j t]; cbn [length]; (split; [gen_split; try reflexivity; exfalso; lia|]); split; reflexivity.
 Qed.
 
 (* doJob: a new worker while fewer than maxWorkers exist (1, 2), otherwise wait for an idle one (3); the job then runs
@@ -98,8 +99,7 @@ Lemma gen_wg_do_job : forall cf s j, p_pc s = PDo j ->
                        end).
 Proof.
   intros cf s j Hp. unfold step, g_wg_do_job. rewrite Hp. repeat split.
-  destruct (Nat.ltb_spec (active s) (maxw cf)); destruct (Z.ltb_spec (Z.of_nat (active s)) (Z.of_nat (maxw cf)));
-    try reflexivity; exfalso; lia.
+  gen_split; try reflexivity; exfalso; lia.
 Qed.
 
 (* runQueuing, one turn: an item is queued (1) and a notification offered without blocking; the stop message is passed
@@ -146,7 +146,11 @@ Proof. intros c r d n t. repeat split; destruct c, r, d, n, t; cbn; auto. Qed.
 (* Queue.Pop and Results: nothing to pop is an error; Results hands the stored list over and leaves an empty one *)
 Lemma gen_queue_pop : forall n, 0 <= n ->
   g_queue_pop n = if n =? 0 then ([], RetO 0) else if 1 <? n then ([1], RetO 1) else ([2], RetO 1).
-Proof. intros n Hn. unfold g_queue_pop. rewrite Z.gtb_ltb. reflexivity. Qed.
+Proof.
+  intros n Hn. unfold g_queue_pop. gen_split; try reflexivity; exfalso; lia.
+Qed.
 
 Lemma gen_wg_results : forall d n, hd 0 (fst (g_wg_results d n)) = 1.
-Proof. intros d n. unfold g_wg_results. destruct d; cbn; [|reflexivity]. destruct (n >? 1); reflexivity. Qed.
+Proof.
+  intros d n. unfold g_wg_results. destruct d; cbn [negb]; gen_split; reflexivity.
+Qed.
